@@ -1200,8 +1200,15 @@ func (s *sharedEntryAttributes) validateMandatoryWithKeys(ctx context.Context, l
 
 		// if not the path exists in the tree and is not to be deleted, then lookup in the paths index of the store
 		// and see if such path exists, if not raise the error
-		if !(existsInTree && v.remainsToExist()) {
-			exists, err := s.treeContext.cacheClient.IntendedPathExists(ctx, append(s.Path(), attribute))
+		// a child that is deleted on the device (shouldDelete) does not remain, even though its running value is still loaded
+		if !(existsInTree && v.remainsToExist() && !v.shouldDelete()) {
+			var exists bool
+			var err error
+			// The paths index reflects the intended store before the transaction. If the child is part of the
+			// tree, its fate is decided there (it is being deleted), only otherwise the index is consulted.
+			if !existsInTree {
+				exists, err = s.treeContext.cacheClient.IntendedPathExists(ctx, append(s.Path(), attribute))
+			}
 			owner := "unknown"
 			if s.leafVariants.Length() > 0 {
 				s.leafVariants.GetHighestPrecedence(false, true).Owner()
